@@ -24,6 +24,7 @@ BAD = [
     ("decode-required-string", {"type": "object", "properties": {"label": {"type": "string"}}, "required": "label"}),
     ("decode-properties-array", {"type": "object", "properties": []}),
     ("decode-items-number", {"type": "array", "items": 5}),
+    ("null-subschema-in-composite", {"allOf": [None, {"type": "object"}]}),
 ]
 
 FIXED_BASES = [
@@ -141,7 +142,7 @@ def run(ctx):
                     runs.append(Run("i%d" % n, files, argv))
                     meta.append(("injection", name, path, sc, mode))
     # unparsable / hostile file contents
-    raw = [b"", b"{", b"[1,2", b"{\"type\": \"object\",}", b"nul", b"\x00\x01\x02", b"{\"type\": \"object\"}}", b"[]", b"\"str\"", b"42", b"null",
+    raw = [b'{"type": "object", "properties": {"a": null}}', b'{"type": "object", "definitions": {"a": null}}', b'{"type": "object", "properties": {"o": {"anyOf": [{"type": "object"}, null]}}}', b"", b"{", b"[1,2", b"{\"type\": \"object\",}", b"nul", b"\x00\x01\x02", b"{\"type\": \"object\"}}", b"[]", b"\"str\"", b"42", b"null",
            b"{\"properties\": 5}", b"{\"type\": {\"a\": 1}}", b"{\"$defs\": []}", b"{\"required\": \"x\"}", b"{\"enum\": 5}", b"\xff\xfe{}", b"{" * 2000]
     yraw = [b"a: [1, 2", b"\t- x", b"key: : :", b"- a\nb: c", b"%YAML 9.9\n---\n", b"a: &x [*x]", b"? [\n", b"\x00"]
     for i, b in enumerate(raw):
